@@ -7,6 +7,8 @@ import tempfile
 
 from hypothesis import strategies as st
 
+from vlib.runner import reused_dir
+
 from cutplace import errors, rowio
 
 PROPERTY_ID = "C13"
@@ -299,7 +301,7 @@ def check_file_case(sub, case):
         variants += [text[:i] + ch + text[i + 1:] for i in range(len(text))]
     elif edit == "single":  # replay form: explicit variant
         variants = [text]
-    tmpdir = tempfile.mkdtemp(prefix="c13-") if case["via"] in ("path", "fd") else None
+    tmpdir = reused_dir("c13") if case["via"] in ("path", "fd") else None
     try:
         for variant in variants:
             n_rows = judge(sub, variant, widths, setting, case["via"], case["encoding"], tmpdir)
@@ -420,7 +422,7 @@ def replay(sub, case):
     if "edit" in case:
         check_file_case(sub, case)
     else:
-        tmpdir = tempfile.mkdtemp(prefix="c13-") if case.get("via") == "path" else None
+        tmpdir = reused_dir("c13") if case.get("via") == "path" else None
         try:
             judge(sub, case["text"], case["widths"], case["setting"], case.get("via", "stream"),
                   case.get("encoding", "utf-8"), tmpdir)
